@@ -59,7 +59,15 @@ pub fn mutated_self_field_of_target(target: &Expr) -> Option<String> {
 
 /// names assigned (`x = ..`, `x op= ..`; a mutated field `f` of `self` is the name `self.f`) and names declared by
 /// `let` inside
-struct AssignFinder { assigned: Vec<String>, declared: Vec<String>, inout_fns: Vec<(String, Vec<usize>)>, mut_methods: Vec<(String, Vec<String>)> }
+struct AssignFinder {
+    assigned: Vec<String>, declared: Vec<String>, inout_fns: Vec<(String, Vec<usize>)>, mut_methods: Vec<(String, Vec<String>)>,
+    /// flattened struct locals in scope: (variable, struct)
+    flat_locals: Vec<(String, String)>,
+    /// translated `&mut self` methods of any type: ((type, method), modified fields)
+    all_mut_methods: Vec<((String, String), Vec<String>)>,
+    /// methods of the own type with `&mut` struct / list parameters: (method, positions among the explicit arguments)
+    inout_methods: Vec<(String, Vec<usize>)>,
+}
 impl AssignFinder {
     fn target(&mut self, left: &Expr) {
         let n = match path_ident(left) {
@@ -67,6 +75,10 @@ impl AssignFinder {
             None => match mutated_self_field_of_target(left) {
                 Some(f) => Some(format!("self.{}", f)),
                 None => match strip_paren(left) {
+                    // `x.f = ..` for a flattened struct local `x`: the variable `x.f`
+                    Expr::Field(f) if path_ident(&f.base).map(|b| self.flat_locals.iter().any(|(v, _)| *v == b)).unwrap_or(false) => {
+                        match &f.member { syn::Member::Named(i) => Some(format!("{}.{}", path_ident(&f.base).unwrap(), i)), _ => None }
+                    }
                     // `x.f = ..` for a local struct value `x`
                     Expr::Field(f) => path_ident(&f.base),
                     // `*x.m(..) = ..` (a place method of the local struct value `x`)
@@ -95,6 +107,20 @@ impl<'ast> Visit<'ast> for AssignFinder {
         if path_ident(&m.receiver).as_deref() == Some("self") {
             if let Some((_, fs)) = self.mut_methods.iter().find(|(n, _)| *n == m.method.to_string()).cloned() {
                 for f in fs { let n = format!("self.{}", f); if !self.assigned.contains(&n) { self.assigned.push(n); } }
+            }
+            // `self.make_move(result, ..)`: a `&mut` struct / list argument is modified
+            if let Some((_, pos)) = self.inout_methods.iter().find(|(n, _)| *n == m.method.to_string()).cloned() {
+                for i in pos { if let Some(a) = m.args.iter().nth(i) { if let Some(n) = path_ident(a) { if !self.assigned.contains(&n) { self.assigned.push(n); } } } }
+            }
+        } else if let Some(x) = path_ident(&m.receiver) {
+            // `mv.set_x(..)` on a flattened struct local: the fields the method modifies
+            if let Some((_, sn)) = self.flat_locals.iter().find(|(v, _)| *v == x).cloned() {
+                if let Some((_, fs)) = self.all_mut_methods.iter().find(|((t, n), _)| *t == sn && *n == m.method.to_string()).cloned() {
+                    for f in fs { let n = format!("{}.{}", x, f); if !self.assigned.contains(&n) { self.assigned.push(n); } }
+                }
+            } else if m.method == "push" && !matches!(strip_paren(&m.receiver), Expr::Field(_)) {
+                // `result.push(x)` on a local / parameter list
+                if !self.assigned.contains(&x) { self.assigned.push(x); }
             }
         }
         syn::visit::visit_expr_method_call(self, m);
@@ -225,11 +251,47 @@ impl<'w> FnTr<'w> {
                 parts.push(text);
             }
             parts.extend(self.inout.iter().cloned());
-            return format!("pure {}", tuple(&parts));
+            // (inside a loop with `return`: the loop yields `Ctl.ret` of the complete result of the function)
+            return match self.ret_mode { RetMode::Direct => format!("pure {}", tuple(&parts)), RetMode::Ctl => format!("pure (Ctl.ret {})", tuple(&parts)) };
         }
         match self.ret_mode {
             RetMode::Direct => match &v.m { Some(m) => m.clone(), None => format!("pure {}", v.a()) },
             RetMode::Ctl => format!("pure (Ctl.ret {})", v.a()),
+        }
+    }
+
+    /// Lean type of the complete result of the function: the returned value, the modified fields of `&mut self`, the `&mut` parameters
+    pub fn full_ret_lean(&self) -> String {
+        if self.self_mutated.is_empty() && self.inout.is_empty() { return self.ret.lean_atom(); }
+        let mut parts = vec![];
+        if self.ret != RTy::Unit { parts.push(self.ret.lean_atom()); }
+        for f in self.self_mutated.iter().chain(self.inout.iter()) {
+            let t = self.env.iter().rev().find(|v| v.lean == *f).map(|v| v.ty.lean_atom()).unwrap_or_else(|| "_".to_string());
+            parts.push(t);
+        }
+        if parts.len() == 1 { parts[0].clone() } else { format!("({})", parts.join(" × ")) }
+    }
+
+    /// does the function return more than its value (modified fields of `&mut self`, `&mut` parameters)?
+    pub fn has_extra_results(&self) -> bool { !self.self_mutated.is_empty() || !self.inout.is_empty() }
+
+    /// the side-effecting call that may run before the statement `e` belongs to: the head of its method chain, if that is
+    /// a mutating method of a collection field of `self` or a translated `&mut self` method of the own type that returns a value
+    pub fn effect_head_w(&self, e: &Expr) -> Option<*const syn::ExprMethodCall> {
+        if let Some(m) = effect_head(e) { return Some(m as *const _); }
+        let ns = self.target.container.ns().map(|s| s.to_string());
+        let mut cur = strip_paren(e);
+        loop {
+            match cur {
+                Expr::MethodCall(mc) => {
+                    if path_ident(&mc.receiver).as_deref() == Some("self") {
+                        return match self.world.fns.get(&(ns.clone(), mc.method.to_string())) { Some(i) if !i.self_mutated.is_empty() && i.ret != RTy::Unit => Some(mc as *const _), _ => None };
+                    }
+                    cur = strip_paren(&mc.receiver);
+                }
+                Expr::Unary(u) if matches!(u.op, syn::UnOp::Not(_)) => cur = strip_paren(&u.expr),
+                _ => return None,
+            }
         }
     }
 
@@ -303,7 +365,16 @@ impl<'w> FnTr<'w> {
             _ => {
                 let exp = match k { Kont::Return => Some(self.ret.clone()), Kont::Value(t) => t.clone().or_else(|| self.value_ty.last().cloned().flatten()), _ => None };
                 match k {
-                    Kont::Return | Kont::Value(_) => {
+                    Kont::Return => {
+                        // `SRC.into_iter().filter(|&x| self.m(x)).collect()` with a `&mut self` predicate
+                        if let Some((mut pre, v)) = self.try_filter_collect(e)? {
+                            pre.extend(self.finish(Some(v), k)?);
+                            return Ok(pre);
+                        }
+                        let v = self.tr_expr(e, exp.as_ref())?;
+                        self.finish(Some(v), k)
+                    }
+                    Kont::Value(_) => {
                         let v = self.tr_expr(e, exp.as_ref())?;
                         self.finish(Some(v), k)
                     }
@@ -320,7 +391,18 @@ impl<'w> FnTr<'w> {
             Pat::Type(pt) => (&*pt.pat, Some(self.resolve_type(&pt.ty)?)),
             p => (p, None),
         };
-        let init = l.init.as_ref().ok_or_else(|| self.err(l, "`let` without initialiser"))?;
+        let init = match l.init.as_ref() {
+            Some(i) => i,
+            None => {
+                // `let x;` (deferred initialisation): the variable is bound by its first assignment; its type is the
+                // annotation, else the type of a typed operand it is combined with later (checked at every use), else
+                // the type of the first value assigned
+                let name = match pat { Pat::Ident(pi) if pi.by_ref.is_none() && pi.subpat.is_none() => pi.ident.to_string(), _ => return Err(self.err(l, "unsupported `let` pattern")) };
+                let ty = match ann { Some(t) => t, None => self.infer_from_usage(&name, rest).unwrap_or(RTy::Infer) };
+                self.declare(l, &name, ty, true, None)?;
+                return Ok(false);
+            }
+        };
         if init.diverge.is_some() { return Err(self.err(l, "`let .. else`")); }
         let e = &*init.expr;
         // `let (a, b) = e;`
@@ -376,7 +458,7 @@ impl<'w> FnTr<'w> {
                     }
                 }
                 _ => {
-                    self.effect_allowed = effect_head(e).map(|m| m as *const _);
+                    self.effect_allowed = self.effect_head_w(e);
                     let x = self.tr_expr(e, ann.as_ref());
                     self.effect_allowed = None;
                     let x = x?;
@@ -414,12 +496,32 @@ impl<'w> FnTr<'w> {
             return Ok(true);
         }
         if contains_return_expr(e) { return Err(self.err(e, "`return`/`?` inside a `let` initialiser")); }
+        // `let mut mv = Move { bits: 0, mvvlva: 0 };` for a FLATTENED struct: one variable per field
+        if let Expr::Struct(sl) = strip_paren(e) {
+            if let Some(sn) = self.flat_struct_of_literal(sl) {
+                if ann.is_some() { return Err(self.err(l, "type annotation on a flattened struct local")); }
+                return self.tr_let_flat_struct(l, &name, mutable, sl, &sn, out).map(|_| false);
+            }
+        }
+        // an initialiser made of untyped literals only (`let off = if c { 0 } else { 8 };`): the type is that of a typed
+        // operand the variable is combined with later (every use is type-checked)
+        let mut inferred = false;
+        let ann = if ann.is_none() && all_untyped(e) {
+            inferred = true;
+            Some(self.infer_from_usage(&name, rest).ok_or_else(|| self.err(l, "cannot determine the type of this untyped initialiser from the uses of the variable (add a suffix or annotation)"))?)
+        } else if ann.is_none() && branch_tails(e).iter().any(|t| is_untyped(t)) {
+            // `if c { 0 } else { 8_u32 }`: an untyped branch value takes the type of a suffixed literal in another branch
+            let hint = branch_tails(e).iter().find_map(|t| match strip_paren(t) { Expr::Lit(syn::ExprLit { lit: syn::Lit::Int(i), .. }) if !i.suffix().is_empty() => IntTy::from_name(i.suffix()), _ => None });
+            match hint { Some(t) => { inferred = true; Some(if t == IntTy::U64 && self.bits { RTy::U64 } else { RTy::Int(t) }) } None => ann }
+        } else { ann };
         match e {
             Expr::If(_) | Expr::Match(_) | Expr::Block(_) | Expr::Unsafe(_) => {
                 let (lines, ty) = self.tr_ctl_value(e, ann.as_ref())?;
                 if let Some(a) = &ann { if *a != ty { return Err(self.err(l, "annotation does not match")); } }
+                let tl0 = ty.lean();
                 let v = self.declare(l, &name, ty, mutable, None)?;
                 match compress(&lines) {
+                    Some(t) if inferred => out.push(format!("let {} : {} := {}", v, tl0, t)),
                     Some(t) => out.push(format!("let {} := {}", v, t)),
                     None => {
                         let tl = self.env.last().map(|x| x.ty.lean()).unwrap_or_default();
@@ -431,7 +533,7 @@ impl<'w> FnTr<'w> {
                 }
             }
             _ => {
-                self.effect_allowed = effect_head(e).map(|m| m as *const _);
+                self.effect_allowed = self.effect_head_w(e);
                 let x = self.tr_expr(e, ann.as_ref());
                 self.effect_allowed = None;
                 let x = x?;
@@ -464,6 +566,15 @@ impl<'w> FnTr<'w> {
         if let Expr::Field(fe) = strip_paren(left) {
             if let (Some(xn), syn::Member::Named(fname)) = (path_ident(&fe.base), &fe.member) {
                 if let Some(xv) = self.lookup(&xn).cloned() {
+                    // a flattened struct local: the field is a variable of its own
+                    if let (RTy::Flat(_), None) = (&xv.ty, xv.param) {
+                        let v = self.lookup(&format!("{}.{}", xn, fname)).cloned().ok_or_else(|| self.err(e, "unknown field of a flattened struct local"))?;
+                        if !v.mutable { return Err(self.err(e, "assignment to a field of an immutable struct value")); }
+                        self.note_use(&v.lean);
+                        let x = self.new_value(e, &v.lean, &v.ty, op, right)?;
+                        out.push(bind_line(&v.lean, &x));
+                        return Ok(());
+                    }
                     if let RTy::Struct(sn) = &xv.ty {
                         if !xv.mutable { return Err(self.err(e, "assignment to a field of an immutable struct value")); }
                         let fname = fname.to_string();
@@ -517,6 +628,15 @@ impl<'w> FnTr<'w> {
         };
         let v = self.lookup(&name).cloned().ok_or_else(|| self.err(e, "assignment to an unknown variable"))?;
         if !v.mutable { return Err(self.err(e, "assignment to an immutable variable")); }
+        if v.ty == RTy::Infer {
+            // first assignment of a `let x;` variable whose type is not known yet: the type of the value
+            if op.is_some() { return Err(self.err(e, "compound assignment to an uninitialised variable")); }
+            let x = self.tr_expr(right, None)?;
+            if matches!(x.ty, RTy::Flat(_) | RTy::Infer | RTy::Unit) { return Err(self.err(e, "unsupported value for a `let x;` variable")); }
+            if let Some(i) = self.env.iter().rposition(|w| w.rust == name) { self.env[i].ty = x.ty.clone(); }
+            out.push(bind_line(&v.lean, &x));
+            return Ok(());
+        }
         self.note_use(&v.lean);
         let x = self.new_value(e, &v.lean, &v.ty, op, right)?;
         out.push(bind_line(&v.lean, &x));
@@ -782,7 +902,7 @@ impl<'w> FnTr<'w> {
                 }
                 Some(c) => {
                     // a side-effecting call may be the head of the FIRST condition of a chain (it runs before the `if`)
-                    if let (CondSrc::Expr(ce), 0, false) = (c, idx, matches!(k, Kont::Value(_))) { self.effect_allowed = effect_head(ce).map(|m| m as *const _); }
+                    if let (CondSrc::Expr(ce), 0, false) = (c, idx, matches!(k, Kont::Value(_))) { self.effect_allowed = self.effect_head_w(ce); }
                     let cx = self.branch_cond(c);
                     self.effect_allowed = None;
                     let cx = cx?;
@@ -872,7 +992,13 @@ impl<'w> FnTr<'w> {
         let ns = self.target.container.ns().map(|s| s.to_string());
         let mut mut_methods: Vec<(String, Vec<String>)> = self.world.fns.iter().filter(|((n, _), i)| *n == ns && !i.self_mutated.is_empty()).map(|((_, m), i)| (m.clone(), i.self_mutated.clone())).collect();
         mut_methods.sort();
-        AssignFinder { assigned: vec![], declared: vec![], inout_fns, mut_methods }
+        let mut all_mut_methods: Vec<((String, String), Vec<String>)> = self.world.fns.iter().filter(|((n, _), i)| n.is_some() && !i.self_mutated.is_empty()).map(|((n, m), i)| ((n.clone().unwrap(), m.clone()), i.self_mutated.clone())).collect();
+        all_mut_methods.sort();
+        let mut inout_methods: Vec<(String, Vec<usize>)> = self.world.fns.iter().filter(|((n, _), i)| *n == ns && n.is_some() && !i.inout.is_empty() && i.rust_params.first().map(|s| s == "self").unwrap_or(false))
+            .map(|((_, m), i)| (m.clone(), i.inout.iter().map(|k| k - 1).collect())).collect();
+        inout_methods.sort();
+        let flat_locals: Vec<(String, String)> = self.env.iter().filter_map(|v| match (&v.ty, v.param) { (RTy::Flat(s), None) if v.rust != "self" => Some((v.rust.clone(), s.clone())), _ => None }).collect();
+        AssignFinder { assigned: vec![], declared: vec![], inout_fns, mut_methods, flat_locals, all_mut_methods, inout_methods }
     }
 
     /// outer (already declared) mutable variables assigned inside `e`, in declaration order
@@ -909,6 +1035,8 @@ impl<'w> FnTr<'w> {
 
     fn tr_for(&mut self, e: &Expr, f: &syn::ExprForLoop, rest: &[Stmt], k: &Kont, out: &mut Vec<String>) -> Res<bool> {
         if f.label.is_some() { return Err(self.err(e, "labelled loop")); }
+        // `for &mv in moves { .. }` over a list (slice / Vec parameter or local)
+        if !matches!(strip_paren(&f.expr), Expr::Range(_)) { return self.tr_for_list(e, f, rest, k, out); }
         let var = match &*f.pat { Pat::Ident(pi) if pi.subpat.is_none() && pi.by_ref.is_none() && pi.mutability.is_none() => pi.ident.to_string(), _ => return Err(self.err(e, "unsupported `for` pattern")) };
         let range = match strip_paren(&f.expr) { Expr::Range(r) if matches!(r.limits, syn::RangeLimits::HalfOpen(_)) => r, _ => return Err(self.err(e, "`for` is only supported over a half-open range `a..b`")) };
         let (start, end) = match (&range.start, &range.end) { (Some(s), Some(en)) => (&**s, &**en), _ => return Err(self.err(e, "`for` range without both bounds")) };
@@ -991,7 +1119,7 @@ impl<'w> FnTr<'w> {
         let mut captured: Vec<(String, RTy)> = vec![];
         let mut lps = self.lparams.clone();
         lps.sort_by_key(|p| p.key);
-        for p in &lps { if used.contains(&p.name) && p.origin != Origin::Fuel { captured.push((p.name.clone(), p.ty.clone())); } }
+        for p in &lps { if used.contains(&p.name) && p.origin != Origin::Fuel && !state.contains(&p.name) { captured.push((p.name.clone(), p.ty.clone())); } }
         let mut seen: Vec<String> = captured.iter().map(|c| c.0.clone()).collect();
         let env_now = self.env.clone();
         for (i, v) in env_now.iter().enumerate() {
@@ -1008,9 +1136,9 @@ impl<'w> FnTr<'w> {
 
         let cap_names: Vec<String> = captured.iter().map(|c| c.0.clone()).collect();
         let call_prefix = if cap_names.is_empty() { lname.clone() } else { format!("{} {}", lname, cap_names.join(" ")) };
-        let ret_ty = self.ret.clone();
+        let ret_ty_lean = self.full_ret_lean();
         let state_ty = if state_tys.is_empty() { "Unit".to_string() } else { state_tys.iter().map(|t| t.lean_atom()).collect::<Vec<_>>().join(" × ") };
-        let res_ty = if has_return { format!("Option (Ctl {} ({}))", ret_ty.lean_atom(), state_ty) } else { format!("Option ({})", state_ty) };
+        let res_ty = if has_return { format!("Option (Ctl {} ({}))", ret_ty_lean, state_ty) } else { format!("Option ({})", state_ty) };
         let exit = if has_return { format!("pure (Ctl.next {})", tuple(&state)) } else { format!("pure {}", tuple(&state)) };
 
         // definition
@@ -1042,7 +1170,9 @@ impl<'w> FnTr<'w> {
         if has_return {
             out.push(format!("match (← {}) with", call));
             let r = Ex::atom("r", self.ret.clone());
-            out.push(format!("| Ctl.ret r => {}", self.ret_line(&r)));
+            // (with modified `self` fields / `&mut` parameters `r` is already the complete result)
+            if self.has_extra_results() { out.push(format!("| Ctl.ret r => {}", match self.ret_mode { RetMode::Direct => "pure r", RetMode::Ctl => "pure (Ctl.ret r)" })); }
+            else { out.push(format!("| Ctl.ret r => {}", self.ret_line(&r))); }
             out.push(format!("| Ctl.next {} => do", pat_tuple(&state)));
             let lines = self.tr_stmts(rest, k)?;
             out.extend(indent(lines, 2));
@@ -1051,6 +1181,203 @@ impl<'w> FnTr<'w> {
             out.push(format!("let {} ← {}", pat_tuple(&state), call));
             Ok(false)
         }
+    }
+
+    /// outer names read inside a generated auxiliary definition (generated parameters first, then variables in scope) that are
+    /// not part of its state
+    fn captured_of(&mut self, used: &std::collections::HashSet<String>, state: &[String]) -> Vec<(String, RTy)> {
+        let mut captured: Vec<(String, RTy)> = vec![];
+        let mut lps = self.lparams.clone();
+        lps.sort_by_key(|p| p.key);
+        for p in &lps { if used.contains(&p.name) && p.origin != Origin::Fuel && !state.contains(&p.name) { captured.push((p.name.clone(), p.ty.clone())); } }
+        let mut seen: Vec<String> = captured.iter().map(|c| c.0.clone()).collect();
+        let env_now = self.env.clone();
+        for (i, v) in env_now.iter().enumerate() {
+            if !used.contains(&v.lean) || state.contains(&v.lean) || seen.contains(&v.lean) { continue; }
+            if env_now[i + 1..].iter().any(|w| w.lean == v.lean) { continue; }
+            if let RTy::Flat(_) = v.ty { continue; }
+            seen.push(v.lean.clone());
+            captured.push((v.lean.clone(), v.ty.clone()));
+        }
+        for (_, t) in &captured { self.note_ty_dep(t); }
+        for (n, _) in &captured { self.note_use(n); }
+        for n in state { self.note_use(n); }
+        captured
+    }
+
+    /// binds the element variable `var` of a list of `el`s: a packed struct value is destructured into a flattened struct
+    /// local (`(mv_bits, mv_mvvlva)`), a primitive is a variable; returns the Lean pattern
+    fn bind_list_element<T: syn::spanned::Spanned + quote::ToTokens>(&mut self, node: &T, var: &str, el: &RTy) -> Res<String> {
+        match el {
+            RTy::Packed(sn, tys) => {
+                if self.lookup(var).is_some() { return Err(self.err(node, "the element variable must not shadow another variable")); }
+                let decl = self.world.structs[sn].fields.clone();
+                self.env.push(Var { rust: var.to_string(), lean: var.to_string(), ty: RTy::Flat(sn.clone()), depth: self.depth, mutable: false, param: None, declared: true });
+                let mut names = vec![];
+                for ((f, _), t) in decl.iter().zip(tys.iter()) {
+                    let lean = format!("{}_{}", lean_ident(var), f);
+                    if self.local_names.contains(&lean) || self.lparams.iter().any(|p| p.name == lean) || self.lookup(&lean).is_some() { return Err(self.err(node, &format!("generated variable name `{}` clashes with another name", lean))); }
+                    self.local_names.insert(lean.clone());
+                    self.env.push(Var { rust: format!("{}.{}", var, f), lean: lean.clone(), ty: t.clone(), depth: self.depth, mutable: false, param: None, declared: true });
+                    names.push(lean);
+                }
+                Ok(tuple(&names))
+            }
+            RTy::Int(_) | RTy::U64 | RTy::Bool | RTy::Char => self.declare(node, var, el.clone(), false, None),
+            _ => Err(self.err(node, "iteration over a list of this element type is unsupported")),
+        }
+    }
+
+    /// `for &x in list { body }`: a definition by STRUCTURAL recursion on the list (no fuel); the loop state is the outer
+    /// variables the body assigns (fields of `&mut self` included)
+    fn tr_for_list(&mut self, e: &Expr, f: &syn::ExprForLoop, rest: &[Stmt], k: &Kont, out: &mut Vec<String>) -> Res<bool> {
+        let mut pat = &*f.pat;
+        while let Pat::Reference(r) = pat { pat = &r.pat; }
+        let var = match pat { Pat::Ident(pi) if pi.subpat.is_none() && pi.by_ref.is_none() && pi.mutability.is_none() => pi.ident.to_string(), _ => return Err(self.err(e, "unsupported `for` pattern")) };
+        let mut bf = BreakFinder { found: false };
+        bf.visit_block(&f.body);
+        if bf.found { return Err(self.err(e, "`break`/`continue`")); }
+        let has_return = contains_return_stmts(&f.body.stmts);
+        let lx = self.tr_expr(&f.expr, None)?;
+        let el = match &lx.ty { RTy::VecList(el) if lx.pure && lx.atomic => (**el).clone(), _ => return Err(self.err(e, "`for` over something that is neither a range nor a list variable")) };
+        let mut af = self.assign_finder();
+        af.visit_block(&f.body);
+        let state = self.assigned_outer(e, af)?;
+        let state_tys: Vec<RTy> = state.iter().map(|s| self.env.iter().rev().find(|v| v.lean == *s).map(|v| v.ty.clone()).unwrap()).collect();
+        self.loop_counter += 1;
+        let lname = format!("{}.for_{}", self.lean_fn, self.loop_counter);
+        let outer_mode = self.ret_mode;
+        let outer_env = self.env.clone();
+        self.used.push(Default::default());
+        if has_return { self.ret_mode = RetMode::Ctl; }
+        let mark = self.push_scope();
+        let body_res = (|| -> Res<(String, Vec<String>)> {
+            let pat_text = self.bind_list_element(e, &var, &el)?;
+            let kk = Kont::LoopNext { call: "<CALL>".to_string(), state: state.clone() };
+            let lines = self.tr_block(&f.body, &kk)?;
+            Ok((pat_text, lines))
+        })();
+        self.pop_scope(mark);
+        let used = self.used.pop().unwrap();
+        self.ret_mode = outer_mode;
+        self.env = outer_env;
+        let (pat_text, body_lines) = body_res?;
+        let captured = self.captured_of(&used, &state);
+        let cap_names: Vec<String> = captured.iter().map(|c| c.0.clone()).collect();
+        let call_prefix = if cap_names.is_empty() { lname.clone() } else { format!("{} {}", lname, cap_names.join(" ")) };
+        let ret_ty_lean = self.full_ret_lean();
+        let state_ty = if state_tys.is_empty() { "Unit".to_string() } else { state_tys.iter().map(|t| t.lean_atom()).collect::<Vec<_>>().join(" × ") };
+        let res_ty = if has_return { format!("Option (Ctl {} ({}))", ret_ty_lean, state_ty) } else { format!("Option ({})", state_ty) };
+        let exit = if has_return { format!("pure (Ctl.next {})", tuple(&state)) } else { format!("pure {}", tuple(&state)) };
+        let restv = self.fresh("rest");
+        let mut d = vec![];
+        let binders: String = captured.iter().map(|(n, t)| format!(" ({} : {})", n, t.lean())).collect();
+        let arg_tys: String = state_tys.iter().map(|t| format!("{} → ", t.lean_atom())).collect();
+        let list_ty = RTy::VecList(Box::new(el.clone()));
+        self.note_ty_dep(&list_ty);
+        d.push(format!("def {}{} : {} → {}{}", lname, binders, list_ty.lean_atom(), arg_tys, res_ty));
+        let pats: String = state.iter().map(|s| format!(", {}", s)).collect();
+        d.push(format!("  | []{} => {}", pats, exit));
+        d.push(format!("  | {} :: {}{} => do", pat_text, restv, pats));
+        let rec_call = format!("{} {}", call_prefix, restv);
+        for l in indent(body_lines, 4) { d.push(l.replace("<CALL>", &rec_call)); }
+        let line = { use syn::spanned::Spanned; e.span().start().line };
+        let doc = format!(
+            "/-- `for` loop of `{}` over a list ({}:{}), by structural recursion on the list.  Reads: {}.  State: {}.  `none` = panic{}. -/",
+            self.fn_name, self.target.file, line,
+            if captured.is_empty() { "nothing".to_string() } else { captured.iter().map(|(n, t)| format!("{} : {}", n, t.rust())).collect::<Vec<_>>().join(", ") },
+            if state.is_empty() { "none".to_string() } else { state.iter().zip(state_tys.iter()).map(|(n, t)| format!("{} : {}", n, t.rust())).collect::<Vec<_>>().join(", ") },
+            if has_return { "; `Ctl.ret r` = the function returned (`r` = its complete result) from inside the loop, `Ctl.next s` = the loop ended" } else { "" });
+        self.loops.push(LoopDef { name: lname.clone(), doc, lines: d });
+        let call = format!("{} {} {}", call_prefix, lx.a(), state.join(" ")).trim_end().to_string();
+        if has_return {
+            out.push(format!("match (← {}) with", call));
+            let r = Ex::atom("r", self.ret.clone());
+            if self.has_extra_results() { out.push(format!("| Ctl.ret r => {}", match self.ret_mode { RetMode::Direct => "pure r", RetMode::Ctl => "pure (Ctl.ret r)" })); }
+            else { out.push(format!("| Ctl.ret r => {}", self.ret_line(&r))); }
+            out.push(format!("| Ctl.next {} => do", pat_tuple(&state)));
+            let lines = self.tr_stmts(rest, k)?;
+            out.extend(indent(lines, 2));
+            Ok(true)
+        } else {
+            out.push(format!("let {} ← {}", pat_tuple(&state), call));
+            Ok(false)
+        }
+    }
+
+    /// `SRC.into_iter().filter(|&x| self.m(x)).collect()` where `m` is a translated `&mut self` method returning `bool`:
+    /// a definition by structural recursion on the list that threads the fields `m` modifies through the calls, in list
+    /// order (`filter` is lazy: the predicate runs once per element, in order, when `collect` drives the iterator).
+    /// Returns the statements to emit first and the collected list.
+    pub fn try_filter_collect(&mut self, e: &Expr) -> Res<Option<(Vec<String>, Ex)>> {
+        let collect = match strip_paren(e) { Expr::MethodCall(m) if m.method == "collect" && m.args.is_empty() && m.turbofish.is_none() => m, _ => return Ok(None) };
+        let filter = match strip_paren(&collect.receiver) { Expr::MethodCall(m) if m.method == "filter" && m.args.len() == 1 => m, _ => return Ok(None) };
+        let iter = match strip_paren(&filter.receiver) { Expr::MethodCall(m) if (m.method == "into_iter" || m.method == "iter") && m.args.is_empty() => m, _ => return Ok(None) };
+        let cl = match &filter.args[0] { Expr::Closure(c) if c.inputs.len() == 1 && c.capture.is_none() && c.asyncness.is_none() => c, _ => return Ok(None) };
+        let call = match strip_paren(&cl.body) { Expr::MethodCall(m) if path_ident(&m.receiver).as_deref() == Some("self") => m, _ => return Ok(None) };
+        let ns = self.target.container.ns().map(|s| s.to_string());
+        let info = match self.world.fns.get(&(ns, call.method.to_string())).cloned() { Some(i) if !i.self_mutated.is_empty() && i.ret == RTy::Bool && i.inout.is_empty() => i, _ => return Ok(None) };
+        if self.ret_mode != RetMode::Direct || !self.loop_stack_empty() { return Err(self.err(e, "a filter with a `&mut self` predicate inside a loop is unsupported")); }
+        let mut pat = &cl.inputs[0];
+        while let Pat::Reference(r) = pat { pat = &r.pat; }
+        let var = match pat { Pat::Ident(pi) if pi.subpat.is_none() && pi.by_ref.is_none() && pi.mutability.is_none() => pi.ident.to_string(), _ => return Err(self.err(e, "unsupported closure parameter pattern")) };
+        let mut pre = vec![];
+        let sx = self.tr_expr(&iter.receiver, None)?;
+        let el = match &sx.ty { RTy::VecList(el) => (**el).clone(), _ => return Err(self.err(e, "`filter(..).collect()` on something that is not a list")) };
+        if sx.ty != self.ret && !matches!(self.value_ty.last(), Some(_)) { /* the collected list has the type of the source */ }
+        let srcv = self.fresh("source");
+        pre.push(bind_line(&srcv, &sx));
+        // state = the fields the predicate modifies
+        let mut state = vec![];
+        for f in &info.self_mutated { let v = self.self_field_var(e, f)?; state.push(v.lean); }
+        let state_tys: Vec<RTy> = state.iter().map(|s| self.env.iter().rev().find(|v| v.lean == *s).map(|v| v.ty.clone()).unwrap()).collect();
+        self.loop_counter += 1;
+        let lname = format!("{}.filter_{}", self.lean_fn, self.loop_counter);
+        let outer_env = self.env.clone();
+        self.used.push(Default::default());
+        let mark = self.push_scope();
+        let body_res = (|| -> Res<(String, String)> {
+            let pat_text = self.bind_list_element(e, &var, &el)?;
+            let args: Vec<&Expr> = call.args.iter().collect();
+            self.in_call_stmt = true;
+            let x = self.call_translated_pub(e, &info, Some(&call.receiver), &args);
+            self.in_call_stmt = false;
+            let x = x?;
+            let m = x.m.clone().ok_or_else(|| self.err(e, "internal: call is not monadic"))?;
+            Ok((pat_text, m))
+        })();
+        self.pop_scope(mark);
+        let used = self.used.pop().unwrap();
+        self.env = outer_env;
+        let (pat_text, call_text) = body_res?;
+        let captured = self.captured_of(&used, &state);
+        let cap_names: Vec<String> = captured.iter().map(|c| c.0.clone()).collect();
+        let call_prefix = if cap_names.is_empty() { lname.clone() } else { format!("{} {}", lname, cap_names.join(" ")) };
+        let list_ty = RTy::VecList(Box::new(el.clone()));
+        self.note_ty_dep(&list_ty);
+        let binders: String = captured.iter().map(|(n, t)| format!(" ({} : {})", n, t.lean())).collect();
+        let arg_tys: String = state_tys.iter().map(|t| format!("{} → ", t.lean_atom())).collect();
+        let res_parts: Vec<String> = std::iter::once(list_ty.lean_atom()).chain(state_tys.iter().map(|t| t.lean_atom())).collect();
+        let pats: String = state.iter().map(|s| format!(", {}", s)).collect();
+        let (restv, keepv, outv) = (self.fresh("rest"), self.fresh("keep"), self.fresh("out"));
+        let with_state = |first: &str| -> String { let mut v = vec![first.to_string()]; v.extend(state.iter().cloned()); tuple(&v) };
+        let mut d = vec![];
+        d.push(format!("def {}{} : {} → {}Option ({})", lname, binders, list_ty.lean_atom(), arg_tys, res_parts.join(" × ")));
+        d.push(format!("  | []{} => pure {}", pats, with_state("[]")));
+        d.push(format!("  | {} :: {}{} => do", pat_text, restv, pats));
+        d.push(format!("    let {} ← {}", with_state(&keepv), call_text));
+        d.push(format!("    let {} ← {} {} {}", with_state(&outv), call_prefix, restv, state.join(" ")));
+        d.push(format!("    pure {}", with_state(&format!("if {} then {} :: {} else {}", keepv, pat_text, outv, outv))));
+        let line = { use syn::spanned::Spanned; e.span().start().line };
+        let doc = format!(
+            "/-- `.filter(|{}| self.{}(..)).collect()` of `{}` ({}:{}), by structural recursion on the list; the predicate modifies `self`: the fields are threaded through the calls in list order.  Reads: {}.  State: {}.  `none` = panic. -/",
+            var, call.method, self.fn_name, self.target.file, line,
+            if captured.is_empty() { "nothing".to_string() } else { captured.iter().map(|(n, t)| format!("{} : {}", n, t.rust())).collect::<Vec<_>>().join(", ") },
+            state.iter().zip(state_tys.iter()).map(|(n, t)| format!("{} : {}", n, t.rust())).collect::<Vec<_>>().join(", "));
+        self.loops.push(LoopDef { name: lname.clone(), doc, lines: d });
+        let resv = self.fresh("collected");
+        pre.push(format!("let {} ← {} {} {}", with_state(&resv), call_prefix, srcv, state.join(" ")));
+        Ok(Some((pre, Ex::atom(resv, list_ty))))
     }
 
     // ------------------------------------------------------------------ method-call statements (list-mode Vec fields)
@@ -1073,6 +1400,47 @@ impl<'w> FnTr<'w> {
                     let x = x?;
                     let m = x.m.clone().ok_or_else(|| self.err(e, "internal: call is not monadic"))?;
                     out.push(format!("let {} ← {}", pat_tuple(&names), m));
+                    return Ok(());
+                }
+            }
+        }
+        if path_ident(&mc.receiver).as_deref() == Some("self") {
+            // `self.make_move(result, ..);`: a translated method with `&mut` struct / list parameters (they are rebound)
+            let ns = self.target.container.ns().map(|s| s.to_string());
+            if let Some(info) = self.world.fns.get(&(ns, method.clone())) {
+                if !info.inout.is_empty() && info.self_mutated.is_empty() { return self.tr_call_stmt(e, out); }
+            }
+        }
+        if let Some(xn) = path_ident(&mc.receiver) {
+            if let Some(xv) = self.lookup(&xn).cloned() {
+                // `mv.set_x(args);` on a flattened struct local: the field variables the method modifies are rebound
+                if let (RTy::Flat(sn), None) = (&xv.ty, xv.param) {
+                    let info = self.world.fns.get(&(Some(sn.clone()), method.clone())).cloned().ok_or_else(|| self.err(e, &format!("method `{}` of `{}` is not registered for translation", method, sn)))?;
+                    if info.self_mutated.is_empty() || !info.inout.is_empty() { return Err(self.err(e, "method-call statement on a struct local that modifies no field")); }
+                    let mut names = vec![];
+                    if info.ret != RTy::Unit { names.push("_".to_string()); }
+                    for f in &info.self_mutated {
+                        let v = self.lookup(&format!("{}.{}", xn, f)).cloned().ok_or_else(|| self.err(e, "unknown field of a flattened struct local"))?;
+                        if !v.mutable { return Err(self.err(e, "`&mut self` method on an immutable struct local")); }
+                        names.push(v.lean);
+                    }
+                    self.in_call_stmt = true;
+                    let x = self.call_translated_pub(e, &info, Some(&mc.receiver), &args);
+                    self.in_call_stmt = false;
+                    let x = x?;
+                    let m = x.m.clone().ok_or_else(|| self.err(e, "internal: call is not monadic"))?;
+                    out.push(format!("let {} ← {}", pat_tuple(&names), m));
+                    return Ok(());
+                }
+                // `result.push(x);` on a list of packed struct values (local / `&mut` parameter)
+                if let (true, "push") = (crate::is_packed_list(&xv.ty), method.as_str()) {
+                    if !xv.mutable { return Err(self.err(e, "`push` on an immutable list")); }
+                    if args.len() != 1 { return Err(self.err(e, "wrong number of arguments")); }
+                    let el = match &xv.ty { RTy::VecList(el) => (**el).clone(), _ => unreachable!() };
+                    let x = self.tr_expr(args[0], Some(&el))?;
+                    if x.ty != el { return Err(self.err(e, &format!("`push` of {} onto a list of {}", x.ty.rust(), el.rust()))); }
+                    self.note_use(&xv.lean);
+                    out.push(format!("let {} : {} := {} ++ [{}]", xv.lean, xv.ty.lean(), xv.lean, x.text));
                     return Ok(());
                 }
             }
@@ -1122,7 +1490,7 @@ impl<'w> FnTr<'w> {
     /// the mutable variable that stands for the field `f` of `&mut self`
     pub fn self_field_var(&mut self, e: &Expr, f: &str) -> Res<Var> {
         let v = self.lookup(&format!("self.{}", f)).cloned().ok_or_else(|| self.err(e, "mutation of a field of `self` that the pre-scan did not find (or `self` is not `&mut`)"))?;
-        if self.ret_mode != RetMode::Direct || !self.loop_stack_empty() { return Err(self.err(e, "mutation of a `self` field inside a loop is unsupported")); }
+        // (inside a loop the field variables the body modifies are part of the loop state: `assigned_outer`)
         Ok(v)
     }
 
@@ -1171,6 +1539,120 @@ impl<'w> FnTr<'w> {
                 Ok(Ex::atom(r, t))
             }
         }
+    }
+}
+
+/// an expression made of integer literals without suffix only (through `if`/`else` and blocks)
+pub fn all_untyped(e: &Expr) -> bool {
+    fn tail(b: &syn::Block) -> bool { matches!(b.stmts.as_slice(), [Stmt::Expr(x, None)] if all_untyped(x)) }
+    match e {
+        Expr::If(i) => !matches!(&*i.cond, Expr::Let(_)) && tail(&i.then_branch) && match &i.else_branch { Some((_, eb)) => all_untyped(eb), None => false },
+        Expr::Block(b) => b.label.is_none() && tail(&b.block),
+        Expr::Paren(p) => all_untyped(&p.expr),
+        _ => is_untyped(e),
+    }
+}
+
+/// the value expressions of the branches of an `if` / block (the expression itself otherwise)
+pub fn branch_tails(e: &Expr) -> Vec<&Expr> {
+    fn tail(b: &syn::Block) -> Vec<&Expr> { match b.stmts.as_slice() { [Stmt::Expr(x, None)] => branch_tails(x), _ => vec![] } }
+    match e {
+        Expr::If(i) if !matches!(&*i.cond, Expr::Let(_)) => { let mut v = tail(&i.then_branch); if let Some((_, eb)) = &i.else_branch { v.extend(branch_tails(eb)); } v }
+        Expr::Block(b) if b.label.is_none() => tail(&b.block),
+        Expr::Paren(p) => branch_tails(&p.expr),
+        _ => vec![e],
+    }
+}
+
+/// operands the variable `name` is combined with by an arithmetic / comparison / bit operator
+struct UsageFinder { name: String, others: Vec<Expr> }
+impl<'ast> Visit<'ast> for UsageFinder {
+    fn visit_expr_binary(&mut self, b: &'ast syn::ExprBinary) {
+        let ok = !matches!(b.op, BinOp::And(_) | BinOp::Or(_) | BinOp::Shl(_) | BinOp::Shr(_) | BinOp::ShlAssign(_) | BinOp::ShrAssign(_));
+        if ok {
+            let is_name = |x: &Expr| matches!(strip_paren(x), Expr::Path(p) if p.path.is_ident(&self.name));
+            if is_name(&b.left) { self.others.push((*b.right).clone()); }
+            if is_name(&b.right) { self.others.push((*b.left).clone()); }
+        }
+        syn::visit::visit_expr_binary(self, b);
+    }
+    fn visit_expr_closure(&mut self, _: &'ast syn::ExprClosure) {}
+}
+
+impl<'w> FnTr<'w> {
+    /// the type of the first typed operand (variable, constant, cast) the variable `name` is combined with in `stmts`;
+    /// only a HINT for untyped literals: every use is type-checked when it is translated
+    pub fn infer_from_usage(&self, name: &str, stmts: &[Stmt]) -> Option<RTy> {
+        let mut f = UsageFinder { name: name.to_string(), others: vec![] };
+        for s in stmts { f.visit_stmt(s); }
+        for o in &f.others {
+            let t = match strip_paren(o) {
+                Expr::Path(_) => match path_ident(o) {
+                    Some(n) if n != name => match self.lookup(&n) {
+                        Some(v) => Some(v.ty.clone()),
+                        None => self.world.consts.get(&(None, n.clone())).map(|c| c.ty.clone()),
+                    },
+                    _ => None,
+                },
+                Expr::Cast(c) => self.resolve_type(&c.ty).ok(),
+                _ => None,
+            };
+            if let Some(t) = t { if matches!(t, RTy::Int(_) | RTy::U64) { return Some(t); } }
+        }
+        None
+    }
+
+    /// the struct a literal `S { .. }` builds if `S` is a registered struct whose values are FLATTENED in this function
+    pub fn flat_struct_of_literal(&self, sl: &syn::ExprStruct) -> Option<String> {
+        if sl.qself.is_some() || sl.rest.is_some() || sl.path.segments.len() != 1 { return None; }
+        let n = sl.path.segments[0].ident.to_string();
+        let si = self.world.structs.get(&n)?;
+        if Some(&n) == self.self_struct.as_ref() { return None; }
+        let flat = si.lean_module.is_none() || (self.bits && !si.bits);
+        if flat { Some(n) } else { None }
+    }
+
+    /// `let [mut] x = S { f1: e1, .. };` for a flattened struct `S`: the variables `x_f1`, .. (declaration order; the
+    /// initialisers must not panic, so their evaluation order does not matter)
+    fn tr_let_flat_struct(&mut self, l: &syn::Local, name: &str, mutable: bool, sl: &syn::ExprStruct, sn: &str, out: &mut Vec<String>) -> Res<()> {
+        let decl = self.world.structs[sn].fields.clone();
+        if self.lookup(name).is_some() { return Err(self.err(l, "a flattened struct local must not shadow another variable")); }
+        let mut vals: Vec<(String, Ex)> = vec![];
+        for fv in &sl.fields {
+            let fname = match &fv.member { syn::Member::Named(i) => i.to_string(), _ => return Err(self.err(l, "tuple struct literal")) };
+            let fty = decl.iter().find(|(n, _)| *n == fname).map(|(_, t)| t.clone()).ok_or_else(|| self.err(l, "unknown field"))?;
+            let fty = self.resolve_field_type(&fty, sn).map_err(|m| self.err(l, &m))?;
+            let x = self.tr_expr(&fv.expr, Some(&fty))?;
+            if x.ty != fty { return Err(self.err(l, &format!("field `{}`: expected {}, found {}", fname, fty.rust(), x.ty.rust()))); }
+            if !x.pure { return Err(self.err(l, "struct literal with a panicking field initialiser (bind it with `let` first)")); }
+            if vals.iter().any(|(n, _)| *n == fname) { return Err(self.err(l, "field given twice")); }
+            vals.push((fname, x));
+        }
+        if vals.len() != decl.len() { return Err(self.err(l, "wrong number of fields")); }
+        self.env.push(Var { rust: name.to_string(), lean: name.to_string(), ty: RTy::Flat(sn.to_string()), depth: self.depth, mutable, param: None, declared: true });
+        for (f, _) in &decl {
+            let x = &vals.iter().find(|(m, _)| m == f).unwrap().1;
+            let lean = format!("{}_{}", lean_ident(name), f);
+            if self.local_names.contains(&lean) || self.lparams.iter().any(|p| p.name == lean) || self.lookup(&lean).is_some() { return Err(self.err(l, &format!("generated variable name `{}` clashes with another name", lean))); }
+            self.local_names.insert(lean.clone());
+            self.env.push(Var { rust: format!("{}.{}", name, f), lean: lean.clone(), ty: x.ty.clone(), depth: self.depth, mutable, param: None, declared: true });
+            out.push(bind_line(&lean, x));
+        }
+        Ok(())
+    }
+
+    /// the packed value (tuple of the field variables) of the flattened struct local `name`
+    pub fn pack_flat_local(&mut self, name: &str, sn: &str) -> Option<Ex> {
+        let decl = self.world.structs.get(sn)?.fields.clone();
+        let mut parts = vec![];
+        let mut tys = vec![];
+        for (f, _) in &decl {
+            let v = self.lookup(&format!("{}.{}", name, f))?.clone();
+            self.note_use(&v.lean);
+            parts.push(v.lean);
+            tys.push(v.ty);
+        }
+        Some(Ex::atom(tuple(&parts), RTy::Packed(sn.to_string(), tys)))
     }
 }
 
